@@ -344,6 +344,8 @@ func init() {
 			Run: func(P *Program, R *Report) {
 				sharedRule(P, R, "C02", "C02.f", "C15.f", func(c string) bool { return strings.HasSuffix(c, ":issig") })
 			}},
+		Rule{ID: "C15.g", Explain: "the attribute hash is applied where the specification says: prover, verifier and signer replace an attribute by its SHA-256 digest under the same condition, BitLen > Lm (the guard obligations of C04.g / C01.f, same rule) - a threshold of Lh on one side agrees with Lm for the 1024- and 2048-bit parameters and not for the 4096-bit ones.",
+			Run: func(P *Program, R *Report) { sharedRule(P, R, "C04", "C04.g", "C15.g", nil) }},
 	)
 }
 
